@@ -46,6 +46,9 @@ def c15(tier):
             if which == 2 and n == 0:
                 continue
             runs.append(dict(harness="verifHarness_C15", args=[n, which], reach=["C15/ok"]))
+    # every reserved keyword of the documentation as a name / value
+    for which in (2, 0) if tier == "quick" else (2, 0, 1):
+        runs.append(dict(harness="verifHarness_C15_kw", args=[which], reach=["C15/ok"]))
     # every Unicode code point (one symbolic rune), alone and between ASCII letters
     for which in (0, 2) if tier == "quick" else (0, 1, 2):
         for pad in (0,) if tier == "quick" else (0, 1):
@@ -185,8 +188,8 @@ def c06(tier):
 
 def c07(tier):
     if tier == "quick":
-        return [dict(harness="verifHarness_C07", args=a) for a in ([1, 0], [2, 0], [3, 0], [1, 1], [1, 2], [2, 2])]
-    return [dict(harness="verifHarness_C07", args=a) for a in ([1, 0], [2, 0], [3, 0], [4, 0], [1, 1], [2, 1], [1, 2], [2, 2])]
+        return [dict(harness="verifHarness_C07", args=a) for a in ([1, 0], [2, 0], [3, 0], [1, 1], [1, 2], [2, 2], [1, 3], [2, 3])]
+    return [dict(harness="verifHarness_C07", args=a) for a in ([1, 0], [2, 0], [3, 0], [4, 0], [1, 1], [2, 1], [1, 2], [2, 2], [1, 3], [2, 3])]
 
 
 def c11(tier):
@@ -200,11 +203,11 @@ def c12(tier):
     runs = [dict(harness="verifHarness_C12", args=[n, 0]) for n in range(0, (3 if q else 4) + 1)]
     runs.append(dict(harness="verifHarness_C12", args=[(4 if q else 5), 1]))
     runs += [dict(harness="verifHarness_C12_soup", args=[m]) for m in ((2, 3) if q else (2, 3, 4))]
-    for prefix in range(4):
+    for prefix in range(7):
         for quote in range(4):
             if quote == 3 and prefix != 0:
                 continue
-            runs.append(dict(harness="verifHarness_C12_lit", args=[3 if q else 4, prefix, quote]))
+            runs.append(dict(harness="verifHarness_C12_lit", args=[(3 if prefix < 4 else 2) if q else 4, prefix, quote]))
     return runs
 
 
@@ -212,7 +215,10 @@ def c19(tier):
     q = tier == "quick"
     runs = [dict(harness="verifHarness_C19", args=[0, 1, 1, 0, 2 if q else 3]),   # symbolic presence bits, budget
             dict(harness="verifHarness_C19", args=[0, 1, 1, 1, 0]),                # everything present
-            dict(harness="verifHarness_C19", args=[0, 1, 2, 0, 2 if q else 3])]    # children with their own children
+            dict(harness="verifHarness_C19", args=[0, 1, 2, 0, 2 if q else 3]),    # children with their own children
+            # the traversal half of C19: Walk enumerates exactly the declared node-typed fields in order (C17's per-type harness)
+            dict(harness="verifHarness_C17", args=[0, 1, 1, 0, 2]),
+            dict(harness="verifHarness_C17", args=[0, 1, 1, 1, 0])]
     runs += fam(19, tier, cut=False, budget=1 if q else 2)
     return runs + corpus(19)
 
@@ -235,7 +241,7 @@ def c14(tier):
     runs += [dict(harness="verifHarness_C14", args=[n, 2]) for n in range(0, full)]
     runs.append(dict(harness="verifHarness_C14", args=[full + 1, 1]))
     k = 2 if q else 3
-    for prefix in range(6):
+    for prefix in range(9):
         for quote in range(5):
             if quote == 4 and prefix != 0:
                 continue
@@ -363,7 +369,7 @@ PROPS = {
                 bounds={"quick": "x: all byte strings of length <= 1 on every entry point (<= 2 for ParseExpr and ParseStatements), y: one of 7 fixed inputs (valid, invalid, lexically broken, empty, with \\u escapes), each entry point paired with another one; literals exercising every escape kind; plus every sentence of the 23 families (<= 1 deviation) with a fixed erroneous statement list in between",
                         "thorough": "x of length <= 3; families with <= 2 deviations"},
                 outside="interleavings of goroutines are not explored (DESIGN.md section 8): race-freedom follows from the absence of writes to shared state by argument, not by schedule exploration"),
-    "C19": dict(level="translation_validation", runs=cutpanics(c19), reach=["C19/checked", "C19/parsed"],
+    "C19": dict(level="translation_validation", runs=cutpanics(c19), reach=["C19/checked", "C19/parsed", "C17/ok"],
                 programs=lambda outs: 264,
                 bounds={"quick": "every node type: all position fields symbolic 64-bit (any value, negative = invalid), booleans symbolic, children absent/present by symbolic bits (<= 2 present; and all present), children built to depth 1 and 2, slices 0..2, strings of length 0/1/3; plus every node of the 23 sentence families (<= 1 deviation) on parser output",
                         "thorough": "<= 3 present children; families with <= 2 deviations"},
